@@ -2,6 +2,7 @@ package props
 
 import (
 	"context"
+	"errors"
 	"fmt"
 	"reflect"
 	"testing"
@@ -41,6 +42,10 @@ type C08Scenario struct {
 	// Persist: the bus has a store and a 5 ms persistence timeout; slow handlers (sleeping 10 ms) then outlive
 	// it - the timeout belongs to the append, never to the context handlers see.
 	Persist bool `json:"persist,omitempty"`
+	// Pubs2: a second task publishes these events (ids 1001.., plain Publish or a live context) while the
+	// first goes through Pubs; every per-publish rule - each hook exactly once, before any handler / after
+	// all synchronous handlers of THAT publish - holds for both publishers' events.
+	Pubs2 []C08Pub `json:"pubs2,omitempty"`
 }
 
 type c08Key struct{}
@@ -73,9 +78,17 @@ func genC08(rt *rapid.T) core.Scenario {
 	sc.SetAPI = rapid.IntRange(0, 3).Draw(rt, "setAPI") == 3
 	sc.SetNil = rapid.IntRange(0, 3).Draw(rt, "setNil") == 3
 	sc.Persist = rapid.IntRange(0, 3).Draw(rt, "persist") == 3
+	if rapid.IntRange(0, 2).Draw(rt, "second") == 2 {
+		n2 := rapid.IntRange(1, 3).Draw(rt, "nPubs2")
+		for i := 0; i < n2; i++ {
+			sc.Pubs2 = append(sc.Pubs2, C08Pub{ID: 1000 + (i+1)*2 + rapid.IntRange(0, 1).Draw(rt, "parity2"), CtxKind: rapid.IntRange(0, 1).Draw(rt, "ctx2")})
+		}
+	}
 	sc.Tape = core.DrawTape(rt, 300)
 	return sc
 }
+
+func (sc *C08Scenario) allPubs() []C08Pub { return append(append([]C08Pub{}, sc.Pubs...), sc.Pubs2...) }
 
 type c08Inv struct {
 	Reg, Ev     int
@@ -220,7 +233,7 @@ func (sc *C08Scenario) Execute(t *testing.T) *core.Outcome {
 				return
 			}
 		}
-		for _, p := range sc.Pubs {
+		doPub := func(p C08Pub) {
 			var ctx context.Context
 			switch p.CtxKind {
 			case 1, 2:
@@ -233,6 +246,14 @@ func (sc *C08Scenario) Execute(t *testing.T) *core.Outcome {
 			case 3:
 				c, cancel := context.WithTimeout(context.WithValue(context.Background(), c08Key{}, p.ID), 5*time.Millisecond)
 				ctx, cancelFn[p.ID] = c, cancel
+				// the deadline may pass while nobody is looking (a delivery queued behind the other publisher's
+				// event): note it from a callback task, so that the publish counts as cancelled from then on
+				id := p.ID
+				simrt.ContextAfterFunc(c, func() {
+					if _, done := cancelAt[id]; !done && errors.Is(c.Err(), context.DeadlineExceeded) {
+						cancelAt[id] = w.Rec.Add("deadline-passed", id, 0, "")
+					}
+				})
 			}
 			rootCtx[p.ID] = ctx
 			pubCall[p.ID] = w.Rec.Add("pub-call", p.ID, p.CtxKind, "")
@@ -247,6 +268,19 @@ func (sc *C08Scenario) Execute(t *testing.T) *core.Outcome {
 				c()
 			}
 		}
+		var second *simrt.Task
+		if len(sc.Pubs2) > 0 {
+			second = simrt.GoNamed("publisher2", func() {
+				for _, p := range sc.Pubs2 {
+					doPub(p)
+				}
+			})
+		}
+		for _, p := range sc.Pubs {
+			doPub(p)
+		}
+		simrt.Join(second)
+		w.Bus.Wait()
 	}
 	rep, herr := core.Sim(t, &sc.Base, nil, body)
 	out.Rep = rep
@@ -270,7 +304,7 @@ func (sc *C08Scenario) Execute(t *testing.T) *core.Outcome {
 		out.V("deadlock", "%s", rep.DeadlockInfo)
 		return out
 	}
-	for _, p := range sc.Pubs {
+	for _, p := range sc.allPubs() {
 		if _, ok := pubRet[p.ID]; !ok {
 			out.V("publish-did-not-return", "publish of event %d did not return", p.ID)
 			return out
@@ -374,7 +408,7 @@ func (sc *C08Scenario) Execute(t *testing.T) *core.Outcome {
 	}
 	for _, h := range hooks {
 		known := false
-		for _, p := range sc.Pubs {
+		for _, p := range sc.allPubs() {
 			known = known || p.ID == h.Ev
 		}
 		if !known || sc.Hooks&(1<<h.Kind) == 0 {
@@ -386,7 +420,7 @@ func (sc *C08Scenario) Execute(t *testing.T) *core.Outcome {
 }
 
 func pubKind(sc *C08Scenario, id int) int {
-	for _, p := range sc.Pubs {
+	for _, p := range sc.allPubs() {
 		if p.ID == id {
 			return p.CtxKind
 		}
